@@ -43,6 +43,9 @@ main (int argc, char **argv)
             continue;
           for (int p = 0; phrases[p]; p++)
             {
+              /* an object as crypt(3) allows it on first use: arbitrary contents, only 'initialized' cleared */
+              memset (d, (p + s) % 2 ? 0xA5 : 0x3C, sizeof *d);
+              d->initialized = 0;
               errno = 0;
               char *r = crypt_rn (phrases[p], sets[s], d, sizeof *d);
               int e = errno;
@@ -84,6 +87,7 @@ main (int argc, char **argv)
   }
   const char *pm = crypt_preferred_method ();
   printf ("T P => %s\n", pm ? pm : "NULL");
+  printf ("T Q => %d\n", pm ? crypt_checksalt (pm) : -1);      /* the preferred method is one checksalt calls OK */
   for (int f = 0; f < 3; f++)
     {
       char out[CRYPT_GENSALT_OUTPUT_SIZE], out2[CRYPT_GENSALT_OUTPUT_SIZE];
